@@ -26,12 +26,12 @@ D4_SIG = dict(call='handle_cancel_comp_task', symptom='raises_for_finished_or_un
 
 
 # ------------------------------------------------------------------------------------------------ generation
-def gen_body(rng, kids, malformed, style=None):
+def gen_body(rng, kids, malformed, style=None, wide=False):
     """A script over the child programs `kids`.  Valid scripts never await/next a future after cancelling or
     awaiting it and never cancel twice."""
     style = style or rng.choice(['await_all', 'pardo', 'mixed', 'mixed', 'leave', 'cancel_first'])
     if style == 'pardo':
-        k = rng.randint(2, 4)
+        k = rng.randint(3, 5) if wide else rng.randint(2, 4)
         body = [['m'] + [rng.choice(kids) for _ in range(k)], ['n', 0], ['c', 0]]
         if rng.random() < 0.3:
             body.insert(1, ['s', rng.choice(kids)])
@@ -40,10 +40,10 @@ def gen_body(rng, kids, malformed, style=None):
     nf = rng.randint(1, 3)
     create, acts = [], []
     for f in range(nf):
-        if rng.random() < 0.5:
+        if rng.random() < (0.2 if wide else 0.5):
             create.append(['s', rng.choice(kids)])
         else:
-            create.append(['m'] + [rng.choice(kids) for _ in range(rng.randint(1, 4))])
+            create.append(['m'] + [rng.choice(kids) for _ in range(rng.randint(3, 5) if wide else rng.randint(1, 4))])
         seq = []
         if style == 'await_all':
             fate = 'a'
@@ -96,7 +96,7 @@ def gen_body(rng, kids, malformed, style=None):
     return body
 
 
-def gen_case(rng, idx, malformed=False):
+def gen_case(rng, idx, malformed=False, wide=False):
     nw = rng.choice([1, 2, 2, 3, 3, 4])
     widths = [rng.randint(1, 2), rng.randint(1, 3), rng.randint(1, 3), rng.randint(1, 2)]
     depth = rng.choice([2, 3, 3, 4])
@@ -111,7 +111,7 @@ def gen_case(rng, idx, malformed=False):
             if li == len(levels) - 1 or (li > 0 and rng.random() < 0.25):
                 progs[p] = []
             else:
-                progs[p] = gen_body(rng, levels[li + 1], malformed and rng.random() < 0.5)
+                progs[p] = gen_body(rng, levels[li + 1], malformed and rng.random() < 0.5, wide=wide)
     roots = levels[0]
     ncl = rng.choice([1, 1, 2, 2, 3])
     plans, tid = [], 0
@@ -175,7 +175,7 @@ class Oracle:
         self.cancelled = set()          # spec-level cancelled addresses (explicit, by completion, by client)
         self.issued = set()             # addresses a CANCEL message was really issued for
         self.box_cancelled = set()      # (enc worker, mailbox) cancelled explicitly
-        self.handled = [set() for _ in sim.workers]     # CANCEL addresses handled per worker
+        self.handled = {w._id: set() for w in sim.workers}     # CANCEL addresses handled per worker (by worker id)
         self.arrived_after = set()      # (worker index, addr) tasks handed to a worker after a covering CANCEL
         self.done = {}                  # addr -> count
         self.consumed = set()           # (enc worker, mailbox) awaited to completion
@@ -283,7 +283,7 @@ class Oracle:
             return
         if ev[0] == 'step':
             k = ev[1]
-            w = sim.workers[k]
+            w = sim.wmap[k]
             comp = self.pending_completion
             self.pending_completion = None
             for lab in labels:
@@ -427,7 +427,8 @@ class Oracle:
     def at_quiescence(self):
         sim = self.sim
         s = sim.server
-        for k, w in enumerate(sim.workers):
+        for w in sim.workers:
+            k = w._id
             for a, t in w._tasks.items():
                 ea = tuple(enc(a))
                 if self.dead(ea) and not self.dead(ea, self.issued):
@@ -708,6 +709,108 @@ def exhaustive_bases():
     ]
 
 
+# ------------------------------------------------------------------------------------------------ manager topologies
+def gen_tree_case(rng, idx):
+    """2-3 managers x 1-2 real workers under the real server; scripts map more children than a manager has idle
+    workers, so children spill to the other manager(s) before they are cancelled."""
+    case = gen_case(rng, idx, malformed=(rng.random() < 0.1), wide=True)
+    nm, nwm = rng.choice([(2, 1), (2, 1), (2, 2), (3, 1), (3, 2)])
+    case['tree'] = [nm, nwm]
+    case['idx'] = f't{idx}'
+    kinds = [('mdown', i) for i in range(nm)] + [('up', i) for i in range(nm)]
+    case['weights'] = {f'{k}{i}': rng.choice([0.15, 1, 1, 1, 4]) for k, i in kinds}
+    case['wweights'] = {k: rng.choice([0.3, 1, 1, 3]) for k in ('down', 'mup', 'step')}
+    return case
+
+
+def tree_directed():
+    # the seeded C12-D shape: root on manager 0 submits a child that spills to manager 1, the child spawns, root cancels
+    return [dict(idx='t_spill', tree=[2, 1], nw=2, progs=[[['m', 1, 1, 1], ['n', 0], ['c', 0]], [['s', 2], ['a', 0]], []],
+                 plans=[[['connect'], ['submit', 0, 0], ['request', 0]]], seed=21, pc=0.2, malformed=False, weights={}, wweights={}),
+            dict(idx='t_spill3', tree=[3, 1], nw=3, progs=[[['m', 1, 1, 1, 1], ['n', 0], ['c', 0]], [['m', 2, 2], ['a', 0]], []],
+                 plans=[[['connect'], ['submit', 0, 0], ['request', 0]]], seed=22, pc=0.2, malformed=False, weights={}, wweights={})]
+
+
+def run_case_tree(case):
+    """One scenario on real DetachedServer + Managers + Workers.  Oracle on the real run; the CANCEL routing of every
+    manager / server handler is recorded for the correspondence with the Coq function route_cancel."""
+    import rtsim_cancel as R
+    rng = random.Random(case['seed'])
+    random.seed(case['seed'])
+    warnings.simplefilter('ignore')
+    nm, nwm = case['tree']
+    sim = R.TreeSys(nm, nwm, case['progs'])
+    out = dict(idx=case['idx'], lines=[], real=[], events=[], findings=[], quiescent=False, error=None, tree=True, routes=[])
+    try:
+        orc = Oracle(sim, case)
+        plans = [list(p) for p in case.get('plans', [])]
+        fixed = case.get('events')
+        cap = case.get('cap', 900)
+        n = 0
+        while n < cap:
+            if fixed is not None:
+                if n >= len(fixed):
+                    break
+                ev = tuple(fixed[n])
+            else:
+                sysev = sim.enabled()
+                clev = []
+                for c, plan in enumerate(plans):
+                    while plan:
+                        act = plan[0]
+                        ok = c not in orc.disconnected
+                        if act[0] == 'request' and not case['malformed']:
+                            ok = ok and act[1] not in orc.comp_cancelled and act[1] not in orc.requested
+                        if act[0] == 'request' and act[1] in orc.requested and act[1] not in orc.delivered:
+                            ok = False
+                        if ok:
+                            break
+                        plan.pop(0)
+                    if plan:
+                        clev.append(('cl', c) + tuple(plan[0]))
+                if not sysev and not clev:
+                    break
+                if clev and (not sysev or rng.random() < case['pc']):
+                    ev = rng.choice(clev)
+                    plans[ev[1]].pop(0)
+                else:
+                    wts = [case['weights'].get(f'{e[0]}{e[1]}', case.get('wweights', {}).get(e[0], 1)) for e in sysev]
+                    ev = rng.choices(sysev, wts)[0]
+            labels, exc, extra = sim.do(ev)
+            orc.after(ev, labels, exc, extra)
+            out['events'].append(list(ev))
+            if 'route' in extra:
+                out['routes'].append(sim.routes[-1])
+            n += 1
+            if exc is not None:
+                break
+        else:
+            out['capped'] = True
+        if not out.get('capped') and not sim.enabled() and not any(f[0].get('symptom') == 'handler_raises' for f in orc.findings):
+            out['quiescent'] = True
+            if sim.in_flight():
+                orc.report(dict(symptom='messages_left_in_flight'), 0, sim.in_flight(), 'nothing enabled but channels are not empty')
+            orc.at_quiescence()
+            # the broadcast reached everybody: every worker has handled every CANCEL that was issued
+            for w in sim.workers:
+                missing = sorted(orc.issued - orc.handled[w._id])
+                if missing:
+                    orc.report(dict(symptom='cancel_not_delivered_to_worker', topology='managers'), 'every worker handles every issued CANCEL',
+                               dict(worker=w._id, manager=sim.mgr_of[w._id][0], missing=missing[:4]),
+                               f'worker {w._id} (manager {sim.mgr_of[w._id][0]}) never received CANCEL{missing[0]}: the cancel was not '
+                               'propagated to the root and broadcast down every link')
+        out['findings'] = orc.findings
+        out['stats'] = orc.stats
+        out['n_tasks'] = len(sim.prog_of)
+        spilled = sum(1 for a, p in sim.parent.items() if p is not None)
+        out['stats']['tree_cases'] = 1
+    except BaseException:
+        out['error'] = traceback.format_exc()
+    finally:
+        sim.close()
+    return out
+
+
 # ------------------------------------------------------------------------------------------------ D4 probe
 def d4_probe():
     """Client cancel for a finished / already cancelled / unknown id (DetachedServer.handle_cancel_comp_task)."""
@@ -755,6 +858,22 @@ def compare_and_report(ctx, cases, outs, model_out):
         ctx.count('events', len(out['events']))
         ctx.count('tasks', out.get('n_tasks', 0))
         replay_case = dict(case, events=out['events'], plans=[])
+        if out.get('tree'):
+            ctx.count('topology.managers=%dx%d' % tuple(case['tree']))
+            ctx.count('tree.cancel_routings', len(out['routes']))
+            for (kind, direction, nemp, dests), ml in zip(out['routes'], mlines):
+                want = '[' + ' '.join(str(d) for d in dests) + ']'
+                if ml != want:
+                    nmis += 1
+                    ctx.violation(dict(kind='model-mismatch', event='cancel_routing', node=kind, direction=direction), replay_case, ml, want,
+                                  f'{kind} handling CANCEL from {direction}: Coq route_cancel says {ml}, the implementation sent it to {want}',
+                                  kind='correspondence', corr='coq/rt/CancelTree.v route_cancel vs bqskit/runtime/{manager,detached,base}.py')
+                    break
+            for sig, expected, observed, what in out['findings']:
+                ctx.violation(sig, replay_case, expected, observed, what)
+            if len(ctx.samples) < 6 and nontrivial and not any('tree' in str(x) for x in ctx.samples):
+                ctx.sample(dict(tree=case['tree'], progs=case['progs'], n_events=len(out['events']), stats={k: v for k, v in st.items() if v}))
+            continue
         # --- correspondence
         if len(mlines) != nlines or not mlines or not mlines[0].startswith('ok'):
             ctx.broken_obligation('correspondence cancel model: wrong number of answers', f'{len(mlines)} vs {nlines}')
@@ -800,10 +919,12 @@ def compare_and_report(ctx, cases, outs, model_out):
 
 def run_chunk(cases):
     """Real runs of a chunk of cases + the extracted model on the same event lines (one model process per chunk)."""
-    outs = [run_case(c) for c in cases]
+    outs = [run_case_tree(c) if c.get('tree') else run_case(c) for c in cases]
     lines = []
     for o in outs:
         if not o['error']:
+            if o.get('tree'):
+                o['lines'] = ['route %s %s %d' % (k, d, n) for k, d, n, _ in o['routes']]
             lines += o['lines']
     try:
         model_out = vf.run_model('cancel', lines) if lines else []
@@ -834,15 +955,18 @@ def run_all(ctx, cases):
 def run(ctx: vf.Ctx):
     ctx.uses_translators = set()
     ctx.build(**BUILD)
-    ctx.rule = ('random task-tree scripts (depth<=3, fan-out<=4; submit/map/await/next/cancel, ParallelDo-style first-finisher, '
+    ctx.rule = ('flat: random task-tree scripts (depth<=3, fan-out<=4; submit/map/await/next/cancel, ParallelDo-style first-finisher, '
                 'futures left open at completion) on 1-4 real workers + real DetachedServer, 1-3 clients with '
                 'submit/request/cancel/disconnect at random times, random FIFO-respecting delivery orders with skewed channel '
                 'weights; ~15% malformed scripts (await/cancel after cancel, bad indices). non-trivial = at least one cancel '
-                '(task, client or disconnect) happened; distinct by scenario + seed')
+                '(task, client or disconnect) happened; distinct by scenario + seed. managers: the same generator with wide maps (3-5 children, '
+                'more than a manager has idle workers, so children spill to other managers) on server -> 2-3 managers -> 1-2 workers')
     ctx.assumptions += [
         'handlers are atomic: one event = one call of recv_incoming body / _try_step_next_ready_task / server handle_message '
         '(the two threads of a worker are interleaved at handler granularity, not statement granularity)',
-        'channels are FIFO per direction per link (multiprocessing.Connection); flat topology (no managers) in the model',
+        'channels are FIFO per direction per link (multiprocessing.Connection)',
+        'manager topologies (2-3 real Managers x 1-2 real Workers under the real server): property oracle on the real run + '
+        'correspondence of every CANCEL routing decision with coq/rt/CancelTree.v route_cancel; the full table-level model is flat',
         'the random assignment of schedule_tasks and python set iteration order are replayed from the implementation',
     ]
     ctx.trusted = ['Coq 8.16.1 kernel + vm_compute', 'ExtrOcamlBasic extraction, OCaml 4.13.1, coq/extract/cancel_driver.ml',
@@ -863,6 +987,9 @@ def run(ctx: vf.Ctx):
     n = ctx.n(400, 20000)
     for i in range(n):
         cases.append(gen_case(rng, i, malformed=(rng.random() < 0.15)))
+    cases += tree_directed()
+    for i in range(ctx.n(150, 6000)):
+        cases.append(gen_tree_case(rng, i))
     if not ctx.quick():
         nex, complete = 0, {}
         for b, lim in zip(exhaustive_bases(), [40000, 6000, 6000]):
@@ -885,8 +1012,9 @@ def run(ctx: vf.Ctx):
         if exc is not None:
             ctx.violation(dict(D4_SIG, state=name), dict(probe=name, events=evs), 'CANCEL acknowledged or ignored', exc,
                           f'DetachedServer.handle_cancel_comp_task raises {exc} for {name}; the server loop shuts the runtime down (regression of the D4 fix, /repo 1a66c34)')
-    ctx.cov['theorem_scope'] = ('worker + flat-topology server transition system, all schedules; managers and the '
-                                'statement-level thread interleaving are not modelled')
+    ctx.cov['theorem_scope'] = ('worker + flat-topology server transition system, all schedules; CANCEL propagation through '
+                                'arbitrary trees of managers (C12_cancel_reaches_every_worker); task placement through managers '
+                                'and the statement-level thread interleaving are not modelled')
 
 
 def replay(ctx, data):
